@@ -2,6 +2,7 @@ package h
 
 import (
 	"fmt"
+	"os"
 	"strings"
 
 	"moqsym/exec"
@@ -175,6 +176,56 @@ func TestZZReplay(t *testing.T) {
 				wantI := c.Ite(has, c.Substr(np, c.IntC(0), idx), np)
 				wantM := c.Ite(has, c.Substr(np, c.Add(idx, c.IntC(1)), c.Len(np)), c.Concat(np, c.StrC("Mock")))
 				ex.Oblige(c.And(c.Eq(iface, wantI), c.Eq(mock, wantM)), "C20: parseInterfaceName matches the documented rule")
+			})
+		}}}
+	}
+	return hh
+}
+
+// HHeader: the template constant the generator renders starts with the generated-code marker.
+func HHeader() *Harness {
+	hh := &Harness{
+		ID:          "H.header",
+		Doc:         "moqTemplate (read from the globals initialised by executing template.init from SSA) begins with the generated-code marker line, before any package clause",
+		Funcs:       []string{"internal/template.init"},
+		Assumptions: []string{"text/template emits a leading text node verbatim; go/format keeps a leading comment first"},
+		Bounds:      []string{"the template constant is concrete; no quantifier"},
+		Confirm: func(ic *IC, ob *exec.Obligation) *Violation {
+			v := &Violation{Property: "C16", Harness: ic.H.ID, Instance: ic.Name, Label: ob.Label, Model: ob.Model, Key: "header:" + ob.Label}
+			v.Replay = ic.Env.replayDir("C16", v.Key)
+			findings, tr, err := ic.Env.mockObserve(map[string]string{"arg0": "I1"}, 1, "same")
+			if err != nil {
+				v.Detail = err.Error()
+				return v
+			}
+			os.WriteFile(v.Replay+"/replay.out", []byte(tr), 0o644)
+			os.WriteFile(v.Replay+"/replay.sh", []byte("#!/bin/sh\ncat \"$(dirname \"$0\")/replay.out\"\n"), 0o755)
+			for _, f := range findings {
+				if strings.HasPrefix(f, "C16:") {
+					v.Confirmed = true
+				}
+			}
+			v.Detail = short(tr, 500)
+			return v
+		},
+	}
+	hh.Instances = func(env *Env) []Instance {
+		return []Instance{{Name: "template-constant", Run: func(ic *IC) *exec.Stats {
+			return ic.Explore(func(ex *exec.Exec) {
+				t, ok := exec.ConstStr(globalOf(ex, env.Repo, pkgTemplate, "moqTemplate"))
+				ic.Witness(ex, func(map[string]string) any { return map[string]any{"template_prefix": short(t, 60)} })
+				if !ok {
+					ex.Fail("C16: moqTemplate is not a constant string")
+					return
+				}
+				const marker = "// Code generated by moq; DO NOT EDIT.\n"
+				if !strings.HasPrefix(t, marker) {
+					ex.Fail("C16: the template does not begin with the generated-code marker line")
+				} else if i := strings.Index(t, "package "); i < len(marker) {
+					ex.Fail("C16: a package clause precedes the marker")
+				} else {
+					ex.Pass("C16: the marker line is the first line of the template, before the package clause")
+				}
 			})
 		}}}
 	}
